@@ -335,4 +335,53 @@ def isTrack {S : Type} (c : Consequence S) : Bool :=
 def returnedAll {S : Type} (rs : List (IRes S)) : List (Consequence S) :=
   (rs.filterMap (·.ret)).flatten
 
+/-! ### several wrapped protocol instances alive in one process
+
+  OMNeT++ creates one `InteropEncapsulator` per node, the python simulator one `PythonEncapsulator`
+  per node, all from the SAME protocol class and all in one Python process; their callbacks
+  interleave.  Every wrapper (provider: pending consequences, clock, id, `tracked_variables`;
+  protocol instance) is a value of its own here: a callback of instance `k` reads and writes the
+  state of instance `k` only. -/
+
+/-- one wrapper driven through a callback sequence (`irun` and `prun` are instances of this) -/
+def runSeq {W R C : Type} (step : W → C → W × R) : W → List C → W × List R
+  | w, [] => (w, [])
+  | w, c :: rest =>
+    let r := step w c
+    let rr := runSeq step r.1 rest
+    (rr.1, r.2 :: rr.2)
+
+/-- a family of wrappers; each callback is addressed to one of them -/
+def runMulti {W R C : Type} (step : W → C → W × R) : (Nat → W) → List (Nat × C) → (Nat → W) × List (Nat × R)
+  | ws, [] => (ws, [])
+  | ws, (k, c) :: rest =>
+    let r := step (ws k) c
+    let rr := runMulti step (fun j => if j = k then r.1 else ws j) rest
+    (rr.1, (k, r.2) :: rr.2)
+
+/-- the callbacks addressed to instance `k`, in order -/
+def stepsOf {C : Type} (k : Nat) (steps : List (Nat × C)) : List C :=
+  (steps.filter (fun x => x.1 == k)).map (·.2)
+
+/-- the results of the callbacks of instance `k`, in order -/
+def resultsOf {R : Type} (k : Nat) (rs : List (Nat × R)) : List R :=
+  (rs.filter (fun x => x.1 == k)).map (·.2)
+
+def istep {S σ : Type} [Scalar S] (P : XProto S σ) (w : IW S σ) (c : Int × Callback S) : IW S σ × IRes S :=
+  icallback P w c.1 c.2
+
+def pstep {S σ : Type} (acc : PProv S → Act S → Bool) (P : XProto S σ) (w : PW S σ) (c : Int × Callback S) :
+    PW S σ × List (Act S × Bool) :=
+  pcallback acc P w c.1 c.2
+
+/-- several interop-wrapped instances of one protocol class, callbacks interleaved -/
+def irunMulti {S σ : Type} [Scalar S] (P : XProto S σ) :
+    (Nat → IW S σ) → List (Nat × Int × Callback S) → (Nat → IW S σ) × List (Nat × IRes S) :=
+  runMulti (istep P)
+
+/-- several python-wrapped instances of one protocol class, callbacks interleaved -/
+def prunMulti {S σ : Type} (acc : PProv S → Act S → Bool) (P : XProto S σ) :
+    (Nat → PW S σ) → List (Nat × Int × Callback S) → (Nat → PW S σ) × List (Nat × List (Act S × Bool)) :=
+  runMulti (pstep acc P)
+
 end Interop
